@@ -157,6 +157,7 @@ WALK_INVS = {
     "C13": ["C13_NoDivergence", "C13_PagesAreProcessedFiles", "C13_OnePagePerFile", "C13_OneIndexPerProcessedDir",
             "C13_NoIndexOnStdout"],
     "C14": ["C14_ToctreeExact", "C14_NoDangling", "C14_Reachable", "C14_IndexTitle"],
+    "C18": ["C18_NoWritesWithoutOut", "C18_NoPrintsWithOut", "C18_WritesUnderOut", "C18_SortedPerDirectory"],
     "C15": ["C15_ProcessedIffNotMatched", "C15_NotDescended", "C15_ExcludedNotScanned", "C15_WholeInputExcluded"],
 }
 
@@ -179,6 +180,16 @@ def walk_property(run):
     if current_dev("MC_Walk"):
         res = lib.run_tlc("MC_Walk", walk_cfg(pid, "CurrentDev", trees, pats, outs, seps, check=False))
         run.add_tlc("MC_Walk(%s,%s,Dev=Current)" % (trees, pats), res)
+    if pid == "C18":
+        walkh.replay_c18(run, res.lines.get("BEH", []), run.seed, limit=1500 if q else 20000)
+        run.assumptions += ["inputs that trigger diagnostics are excluded from the stdout comparison (fixture files are clean)"]
+        return ("TLC checks the effect invariants (no writes without -o, no prints with -o, file-system changes only at/below "
+                "an output directory inside the input tree, pages of a directory together and sorted) on the walk "
+                "specification; each terminal behaviour is run through the real cminx.main twice in fresh sandboxes - with "
+                "-o (output absolute / relative / parent of the input / inside the input tree at the top or in a "
+                "sub-directory, pre-populated or not, four settings variants) and without - with complete before/after "
+                "snapshots (paths and bytes) of the sandbox and captured stdout; compared: created/changed/deleted paths "
+                "against the output directory, and stdout against the concatenation of the written pages")
     walkh.replay(run, pid, res.lines.get("BEH", []), run.seed, limit=6000 if q else 60000)
     run.assumptions += ["pathspec (gitwildmatch) is a trusted library; the specification's reading of it (Walk.Match) is "
                         "checked against observed match_file results by the C15 check",
@@ -229,7 +240,7 @@ def c12(run):
 
 CHECKS = {p: agg_property for p in AGG}
 CHECKS["C12"] = c12
-for _p in ("C13", "C14", "C15"):
+for _p in ("C13", "C14", "C15", "C18"):
     CHECKS[_p] = walk_property
 CHECKS["C20"] = c20
 
